@@ -269,15 +269,38 @@ def run(ch: Checker) -> None:
     ch.check(not outside and gens > 0 and bool(locks), 'C11.5', guc, 'lookup and generation under the lock', 'cached-certificate test and generation both inside `with self.lock`',
              '%s happens outside `with self.lock`: a second connection for the same host can see the half-written certificate file of a generation still in progress and hand it to its client'
              % ' and '.join(outside) if outside else 'no locked generation found')
-    p_ok = [norm(s.value) for s in walk_no_nested(guc.node) if isinstance(s, ast.Assign) and norm(s.targets[0]) == 'cert_file_path']
-    ch.check(p_ok == ['HttpProxyPlugin.generated_cert_file_path(self.flags.ca_cert_dir, text_(self.request.host))'], 'C11.5', guc, 'certificate path', 'certificate path is a function of ca_cert_dir and the request host',
-             'the certificate path is computed as %s' % p_ok)
+    # the path returned (and tested / generated into) is a function of ca_cert_dir and the request host
+    WANT_PATH = 'HttpProxyPlugin.generated_cert_file_path(self.flags.ca_cert_dir, text_(self.request.host))'
+    gg = cfg_of(guc, prog, exc_edges=False)
+    rets_p: List[str] = []
+    gen_args: List[str] = []
+    for p in fpaths(gg):
+        ch.paths += 1
+        if p.exit_kind != 'return':
+            continue
+        sym = Sym(p)
+        for i, st in p.stmts():
+            if isinstance(st, ast.Return) and st.value is not None:
+                rets_p.append(norm(sym.value(st.value, i)))
+            for c in walk_no_nested(st):
+                if isinstance(c, ast.Call) and attr_chain(c.func) == 'self.gen_ca_signed_certificate' and c.args:
+                    gen_args.append(norm(sym.value(c.args[0], i)))
+    okp = bool(rets_p) and set(rets_p) == {WANT_PATH} and set(gen_args) <= {WANT_PATH}
+    ch.check(okp, 'C11.5', guc, 'certificate path', 'certificate path is a function of ca_cert_dir and the request host (returned, and generated into, on every path)',
+             'the certificate path is returned as %s / generated into %s' % (sorted(set(rets_p)), sorted(set(gen_args))))
     wc = prog.own_method('HttpProxyPlugin', 'wrap_client')
-    calls = [c for c in walk_no_nested(wc.node) if isinstance(c, ast.Call) and attr_chain(c.func) == 'self.client.wrap']
-    okw = len(calls) == 1 and [norm(a) for a in calls[0].args] == ['self.flags.ca_signing_key_file', 'generated_cert']
-    gc = [norm(s.value)[:48] for s in walk_no_nested(wc.node) if isinstance(s, ast.Assign) and norm(s.targets[0]) == 'generated_cert']
-    ch.check(okw and gc == ['self.generate_upstream_certificate(cert_der_to_dict'[:48]], 'C11.5', wc, 'client.wrap(key, generated cert)', 'client is presented the generated certificate with the signing key',
-             'client.wrap is not called with (flags.ca_signing_key_file, <generated certificate path>): %s / %s' % ([norm(c) for c in calls], gc))
+    gwc = cfg_of(wc, prog, exc_edges=False)
+    wraps: List[Tuple[str, str]] = []
+    for p in fpaths(gwc):
+        ch.paths += 1
+        sym = Sym(p)
+        for i, st in p.stmts():
+            for c in walk_no_nested(st):
+                if isinstance(c, ast.Call) and attr_chain(c.func) == 'self.client.wrap' and len(c.args) == 2:
+                    wraps.append((norm(sym.value(c.args[0], i)), norm(sym.value(c.args[1], i))))
+    okw = bool(wraps) and all(a0 == 'self.flags.ca_signing_key_file' and a1.startswith('self.generate_upstream_certificate(cert_der_to_dict') for a0, a1 in wraps)
+    ch.check(okw, 'C11.5', wc, 'client.wrap(key, generated cert)', 'client is presented the generated certificate with the signing key',
+             'client.wrap is not called with (flags.ca_signing_key_file, <certificate generated for the upstream\'s certificate>): %s' % sorted(set(wraps))[:3])
 
     # ---------------- C11.6
     gec = prog.function('proxy.common.pki', 'get_ext_config')
@@ -318,7 +341,7 @@ def run(ch: Checker) -> None:
             continue
         n += 1
         sym = Sym(p)
-        fd = p.facts()
+        fd = list(allfacts(p).items())
         last = p.stmts()[-1]
         rv = norm(sym.value(last[1].value, last[0])) if isinstance(last[1], ast.Return) and last[1].value is not None else ''
         # a path on which some plugin said False must return that plugin's answer
